@@ -103,6 +103,18 @@ func (c18) Generate(r *core.Rng, run int, tier string) *core.History {
 	if nb > 0 && na > 0 && r.Bool(.3) {
 		h.Events = append(h.Events, core.Event{Ev: "input", Tag: "B", Text: fmt.Sprintf("del(g%03d)", r.Intn(na))})
 	}
+	// third incarnation ("recovery"): a later session that shrinks the state and saves without any fault
+	for i := 0; i < na; i++ {
+		if r.Bool(.8) {
+			h.Events = append(h.Events, core.Event{Ev: "input", Tag: "C", Text: fmt.Sprintf("del(g%03d)", i)})
+		}
+	}
+	for i := 0; i < nb; i++ {
+		if r.Bool(.8) {
+			h.Events = append(h.Events, core.Event{Ev: "input", Tag: "C", Text: fmt.Sprintf("del(g%03d)", 1000+i)})
+		}
+	}
+	h.Events = append(h.Events, core.Event{Ev: "input", Tag: "C", Text: fmt.Sprintf("gzz = %d", r.Intn(100))})
 	h.Cfg["na"], h.Cfg["nb"] = int64(na), int64(nb)
 	h.Cfg["fsize_stride"] = int64(4 + r.Intn(6))
 	return h
@@ -151,6 +163,16 @@ func c18Worker(args []string) int {
 		var b bytes.Buffer
 		_, _ = s.SaveGlobals(&b)
 		return s, b.String()
+	}
+	if mode == "recover" {
+		// a later, healthy session in the directory a crashed/failed save left behind
+		sC, expC := run("C")
+		rep.ExpectB = expC
+		if err := repl.AutoSave(sC, opts); err != nil {
+			rep.ErrB = err.Error()
+		}
+		_ = json.NewEncoder(os.Stdout).Encode(rep)
+		return 0
 	}
 	// incarnation 1: produce file(A) by a real, unfaulted AutoSave
 	_ = os.Remove(repl.AutoSaveFile)
@@ -308,6 +330,24 @@ func (c18) Execute(h *core.History) *core.Outcome {
 		}
 		return (hadA && got == fileA) || got == fileB
 	}
+	// recovery: whatever an interrupted or failed save left behind (state file, temp files), the next healthy
+	// session must be able to save a complete (here: smaller) new version
+	recoverCheck := func(d, after string) {
+		rep, code, _, out := c18Child(d, hf, "recover", 0)
+		st.Children++
+		if rep == nil {
+			st.Discarded = true
+			st.Panic(fmt.Sprintf("recover worker failed (exit %d): %s", code, trunc(out, 200)))
+			return
+		}
+		st.Probe("recovery_saves_after_fault")
+		got, exists := gr(d)
+		if rep.ErrB != "" {
+			fail("save-after-interrupted-save", after, fmt.Sprintf("after %s the next session's AutoSave failed: %s", after, rep.ErrB))
+		} else if !exists || got != rep.ExpectB {
+			fail("save-after-interrupted-save", after, fmt.Sprintf("after %s the next session saved a smaller state: ./.gr exists=%v has %d bytes, the complete new version has %d bytes; tail %q", after, exists, len(got), len(rep.ExpectB), trunc(tailStr(got, 100), 120)))
+		}
+	}
 	// every crash point
 	for p, name := range ref.Points {
 		d := newDir()
@@ -331,6 +371,9 @@ func (c18) Execute(h *core.History) *core.Outcome {
 		}
 		st.ProbeN("leftover_tmp_files", tmpLeft(d))
 		st.State(fmt.Sprintf("%s|%v|%d", name, exists, len(got)))
+		if p%3 == 0 || p >= len(ref.Points)-3 {
+			recoverCheck(d, "crash:"+pointClass(name))
+		}
 		os.RemoveAll(d)
 	}
 	// write failures at a stride of byte offsets
@@ -370,6 +413,7 @@ func (c18) Execute(h *core.History) *core.Outcome {
 			if exists != wantExists || (exists && got != fileA) {
 				fail("failed-save-keeps-previous", "fsize", fmt.Sprintf("write refused at byte %d: ./.gr exists=%v (%d bytes), previous version existed=%v (%d bytes); starts %q", n, exists, len(got), hadA, len(fileA), trunc(got, 120)))
 			}
+			recoverCheck(d, "fsize")
 			os.RemoveAll(d)
 		}
 	}
